@@ -489,12 +489,14 @@ func (b *BlockList) snapshotLocked() blockSnapshot {
 // save behaviour: a transient disk failure must not knock a working
 // blocklist out of memory.
 func (b *BlockList) persist(s blockSnapshot) {
+	verifGate(verifPersistEnter, s.version)
 	b.saveMu.Lock()
 	defer b.saveMu.Unlock()
 
 	// A newer snapshot has already reached disk (or this exact one
 	// has); nothing to do.
 	if s.version != 0 && s.version <= b.lastPersisted {
+		verifGate(verifPersistSkipped, s.version)
 		return
 	}
 
@@ -505,6 +507,7 @@ func (b *BlockList) persist(s blockSnapshot) {
 		return
 	}
 	tmpName := tmp.Name()
+	verifGate(verifTempCreated, s.version)
 
 	cleanup := func() { _ = os.Remove(tmpName) }
 
@@ -518,27 +521,32 @@ func (b *BlockList) persist(s blockSnapshot) {
 		fail("write header", err)
 		return
 	}
+	verifGate(verifWroteHeader, s.version)
 	for _, d := range s.exact {
 		if _, err := tmp.WriteString(d + "\n"); err != nil {
 			fail("write exact", err)
 			return
 		}
+		verifGate(verifWroteLine, s.version)
 	}
 	for _, suffix := range s.wild {
 		if _, err := tmp.WriteString("*." + suffix + "\n"); err != nil {
 			fail("write wild", err)
 			return
 		}
+		verifGate(verifWroteLine, s.version)
 	}
 	if err := tmp.Sync(); err != nil {
 		fail("sync", err)
 		return
 	}
+	verifGate(verifSynced, s.version)
 	if err := tmp.Close(); err != nil {
 		zlog.Warn("Blocklist persist failed", "stage", "close", "error", err.Error())
 		cleanup()
 		return
 	}
+	verifGate(verifClosed, s.version)
 	if err := os.Rename(tmpName, path); err != nil {
 		zlog.Warn("Blocklist persist failed", "stage", "rename", "error", err.Error())
 		cleanup()
@@ -546,6 +554,7 @@ func (b *BlockList) persist(s blockSnapshot) {
 	}
 
 	b.lastPersisted = s.version
+	verifGate(verifRenamed, s.version)
 }
 
 const name = "blocklist"
